@@ -38,6 +38,7 @@ type regenCase struct {
 	TruncOfNew  bool                `json:"truncOfNew"`
 	PredictOK   bool                `json:"predictOK"`
 	PredictSame bool                `json:"predictSame"`
+	SameLine    bool                `json:"sameLine"` // concretisation: the eqA and eqB call sites share one source line
 }
 
 func (v regenVersion) has(s string) bool {
@@ -81,14 +82,42 @@ func (rc *regenCase) String() string {
 		}
 		d += ")"
 	}
-	return fmt.Sprintf("v1=%s ops=[%s] disk=%s", rc.V1, opsString(rc.Ops), d)
+	sl := ""
+	if rc.SameLine {
+		sl = " layout=eqA-and-eqB-on-one-line"
+	}
+	return fmt.Sprintf("v1=%s ops=[%s] disk=%s%s", rc.V1, opsString(rc.Ops), d, sl)
 }
 
 var regenGoType = map[string]string{"int": "int", "strs": "[]string", "ints": "[]int", "mapSI": "map[string]int", "mapII": "map[int]int"}
 var regenKeyType = map[string]string{"mapSI": "[]string", "mapII": "[]int"}
 
 // regenFiles are the user sources of a version (call sites in the model's source order).
-func regenFiles(v regenVersion) map[string]string {
+func regenFiles(v regenVersion, sameLine ...bool) map[string]string {
+	if len(sameLine) > 0 && sameLine[0] && v.has("eqA") && v.has("eqB") {
+		fs := regenFiles(regenVersion{Present: without(v.Present, "eqA", "eqB"), Fty: v.Fty, Vty: v.Vty, Mty: v.Mty})
+		body := strings.TrimPrefix(fs["p/f1.go"], "package p\n")
+		fs["p/f1.go"] = fmt.Sprintf("package p\n\nfunc useEqAB(a, b *T1, x, y %s) bool {\n\treturn deriveEqualA(a, b) && deriveEqualB(x, y)\n}\n", regenGoType[v.Vty]) + body
+		return fs
+	}
+	return regenFilesPlain(v)
+}
+
+func without(ss []string, drop ...string) []string {
+	var out []string
+	for _, s := range ss {
+		keep := true
+		for _, d := range drop {
+			keep = keep && s != d
+		}
+		if keep {
+			out = append(out, s)
+		}
+	}
+	return out
+}
+
+func regenFilesPlain(v regenVersion) map[string]string {
 	fs := map[string]string{"go.mod": "module m\n\ngo 1.24\n"}
 	fs["p/types.go"] = fmt.Sprintf("package p\n\ntype T1 struct {\n\tF %s\n\tN *T1\n}\n", regenGoType[v.Fty])
 	var b strings.Builder
@@ -234,7 +263,7 @@ func (rr *regenRunner) eval(rc *regenCase, id string, chk *Checker, offsetsPer i
 	defer os.RemoveAll(root)
 	dirR, dirS := filepath.Join(root, "r"), filepath.Join(root, "s")
 	res := &regenResult{rc: rc, id: id}
-	if err := writeFiles(dirR, regenFiles(rc.V1)); err != nil {
+	if err := writeFiles(dirR, regenFiles(rc.V1, rc.SameLine)); err != nil {
 		return nil, err
 	}
 	r1, err := gd.Run(c, rr.bin, filepath.Join(dirR, "p"), []string{"."}, "", 0)
@@ -247,10 +276,10 @@ func (rr *regenRunner) eval(rc *regenCase, id string, chk *Checker, offsetsPer i
 	}
 	derR := filepath.Join(dirR, "p", "derived.gen.go")
 	old, _ := os.ReadFile(derR)
-	if err := writeFiles(dirR, regenFiles(rc.V2)); err != nil {
+	if err := writeFiles(dirR, regenFiles(rc.V2, rc.SameLine)); err != nil {
 		return nil, err
 	}
-	if err := writeFiles(dirS, regenFiles(rc.V2)); err != nil {
+	if err := writeFiles(dirS, regenFiles(rc.V2, rc.SameLine)); err != nil {
 		return nil, err
 	}
 	rs, err := gd.Run(c, rr.bin, filepath.Join(dirS, "p"), []string{"."}, "", 0)
@@ -446,7 +475,8 @@ func subCases(rc *regenCase) []*regenCase {
 			for _, t := range tvs {
 				v1 := regenVersion{Present: pres, Fty: t.f, Vty: t.v, Mty: t.m}
 				v2, _ := apply(v1, ops)
-				sub := &regenCase{V1: v1, V2: v2, Ops: ops, Disk: rc.Disk, Class: rc.Class, TruncOfNew: rc.TruncOfNew}
+				sub := &regenCase{V1: v1, V2: v2, Ops: ops, Disk: rc.Disk, Class: rc.Class, TruncOfNew: rc.TruncOfNew, SameLine: rc.SameLine}
+				sub.SameLine = rc.SameLine && ((v1.has("eqA") && v1.has("eqB")) || (v2.has("eqA") && v2.has("eqB")))
 				if !crash {
 					sub.Disk, sub.Class, sub.TruncOfNew = "output", "", false
 					if len(pres) == 0 {
@@ -547,6 +577,7 @@ func checkC07(c *core.Ctx) error {
 			chk := NewChecker()
 			for k := range jobs {
 				rc := cases[chosen[k]]
+				rc.SameLine = (chosen[k]+int(c.Seed))%2 == 1 && ((rc.V1.has("eqA") && rc.V1.has("eqB")) || (rc.V2.has("eqA") && rc.V2.has("eqB")))
 				r, err := rr.eval(&rc, fmt.Sprintf("c07-%06d", chosen[k]), chk, offsetsPer, wrng.Intn)
 				if err != nil {
 					emu.Lock()
@@ -720,7 +751,7 @@ func checkC07(c *core.Ctx) error {
 	for k, a := range wits {
 		r := a.ex
 		c.Report(k, fmt.Sprintf("%d sampled histories reduce to this one; e.g. %s (exit=%d) %s", a.n, r.rc.String(), r.exitR, r.note),
-			map[string]interface{}{"history": r.rc, "v1_files": regenFiles(r.rc.V1), "v2_files": regenFiles(r.rc.V2)})
+			map[string]interface{}{"history": r.rc, "v1_files": regenFiles(r.rc.V1, r.rc.SameLine), "v2_files": regenFiles(r.rc.V2, r.rc.SameLine)})
 	}
 	// DRIFT: prediction of the implementation-shaped model
 	drift := 0
